@@ -82,15 +82,19 @@ const (
 	spLeaf = iota
 	spDict
 	spList
+	spRaw // a ready-made Go value (shared between several places of one input)
 )
 
 // sp is a tree as it is spelled in an input: dictionaries are ordered entry
 // lists whose keys may be dotted (and, for struct carriers, repeated).
 type sp struct {
-	kind int
-	leaf *model.Node // primitive or nil
-	ents []ent
-	list []*sp
+	kind        int
+	leaf        *model.Node // primitive or nil
+	ents        []ent
+	list        []*sp
+	raw         interface{} // spRaw
+	rawName     string
+	placeholder bool // a nil written where another spelling of the namespace holds the value
 }
 
 type ent struct {
@@ -130,6 +134,8 @@ func chain(keys []string, leaf *sp) *sp {
 
 func (s *sp) String() string {
 	switch s.kind {
+	case spRaw:
+		return "<" + s.rawName + ">"
 	case spLeaf:
 		return s.leaf.String()
 	case spList:
@@ -172,6 +178,21 @@ func (s *sp) drop(key string) {
 	s.ents = out
 }
 
+// reversed is a copy of s with the entries of every dictionary in the opposite
+// order (struct carriers: the other declaration order).
+func (s *sp) reversed() *sp {
+	c := *s
+	c.ents = nil
+	for i := len(s.ents) - 1; i >= 0; i-- {
+		c.ents = append(c.ents, ent{s.ents[i].key, s.ents[i].val.reversed()})
+	}
+	c.list = nil
+	for _, e := range s.list {
+		c.list = append(c.list, e.reversed())
+	}
+	return &c
+}
+
 func (s *sp) shuffle(r *rand.Rand) {
 	r.Shuffle(len(s.ents), func(i, j int) { s.ents[i], s.ents[j] = s.ents[j], s.ents[i] })
 }
@@ -187,6 +208,18 @@ type flattener struct {
 	maxSeg  int
 	multi   int // >= 2 dotted keys with the same first segment in one map
 	deep    int // a dictionary below the folded edge is divided between dotted and nested part
+	phDict  int // nil placeholders: a setting given in one part of a divided dictionary is nil in the other
+	partial int // lists divided: some positions dotted, the nested list holds nil placeholders there
+	ph      map[*model.Node]bool
+}
+
+func (f *flattener) placeholderNode() *model.Node {
+	if f.ph == nil {
+		f.ph = map[*model.Node]bool{}
+	}
+	n := model.Nil()
+	f.ph[n] = true
+	return n
 }
 
 func (f *flattener) dict(n *model.Node, depth int) *sp {
@@ -230,9 +263,46 @@ func (f *flattener) emit(prefix string, segs int, c *model.Node, out *[]ent, dep
 			f.emit(prefix+"."+strconv.Itoa(i), segs+1, e, out, depth)
 		}
 		f.listpos++
+	case c.IsSub() && len(c.A) > 1 && len(c.D) == 0 && f.r.Intn(4) == 0:
+		// the list is divided: some positions are given by dotted keys, the
+		// nested list holds nil placeholders there (trailing ones may be left
+		// out); every position is given exactly once
+		n := len(c.A)
+		dotted := make([]bool, n)
+		nd := 0
+		for nd == 0 || nd == n {
+			nd = 0
+			for i := range dotted {
+				dotted[i] = f.r.Intn(2) == 0
+				if dotted[i] {
+					nd++
+				}
+			}
+		}
+		rest := model.List()
+		for i, e := range c.A {
+			if dotted[i] {
+				f.emit(prefix+"."+strconv.Itoa(i), segs+1, e, out, depth)
+				rest.A = append(rest.A, f.placeholderNode())
+			} else {
+				rest.A = append(rest.A, e)
+			}
+		}
+		if f.r.Intn(2) == 0 {
+			for f.ph[rest.A[len(rest.A)-1]] {
+				rest.A = rest.A[:len(rest.A)-1]
+			}
+		}
+		f.note(prefix, segs, depth)
+		*out = append(*out, ent{prefix, f.spell(rest, depth+1)})
+		f.partial++
 	default:
 		f.note(prefix, segs, depth)
-		*out = append(*out, ent{prefix, f.spell(c, depth+1)})
+		s := f.spell(c, depth+1)
+		if f.ph[c] {
+			s.placeholder = true
+		}
+		*out = append(*out, ent{prefix, s})
 	}
 }
 
@@ -260,8 +330,16 @@ func (f *flattener) divide(c *model.Node) (fold, keep *model.Node) {
 			}
 		case x < 4:
 			fold.D[k] = ch
+			if f.r.Intn(5) == 0 {
+				keep.D[k] = f.placeholderNode()
+				f.phDict++
+			}
 		default:
 			keep.D[k] = ch
+			if f.r.Intn(5) == 0 {
+				fold.D[k] = f.placeholderNode()
+				f.phDict++
+			}
 		}
 	}
 	return fold, keep
@@ -290,7 +368,9 @@ func (f *flattener) spell(c *model.Node, depth int) *sp {
 	case c.IsSub():
 		return f.dict(c, depth)
 	}
-	return plain(c)
+	s := plain(c)
+	s.placeholder = f.ph[c]
+	return s
 }
 
 func (f *flattener) shape() string {
@@ -309,6 +389,12 @@ func (f *flattener) shape() string {
 	}
 	if f.listpos > 0 {
 		s += "+listpos"
+	}
+	if f.phDict > 0 {
+		s += "+nil-placeholder"
+	}
+	if f.partial > 0 {
+		s += "+partial-list"
 	}
 	return s
 }
@@ -391,6 +477,8 @@ type builder struct {
 	tag      string // struct tag name the structs are written with ("" = the default `config`, no option needed)
 	decoys   bool   // fields may carry a second tag of another name that says something else
 	err      error  // first error building a nested *Config
+	cfgs     []cfgSnap
+	inlineCfg int // inline fields carried by an existing Config
 	evals    int
 	parts    map[string]bool
 }
@@ -432,8 +520,53 @@ func (b *builder) decoy(key string) string {
 	return fmt.Sprintf(`%s:"%s"`, other, text)
 }
 
+// cfgSnap is what an existing *Config handed in as (part of) an input looked
+// like before the call: the input is data, normalising it must not change it.
+type cfgSnap struct {
+	c      *ucfg.Config
+	canon  string
+	parent *ucfg.Config
+	path   string
+}
+
+func snapConfig(c *ucfg.Config) (sn cfgSnap, ok bool) {
+	var m interface{}
+	var err error
+	if p, _, _ := harness.Safe(func() {
+		err = c.Unpack(&m)
+		sn = cfgSnap{c: c, canon: model.CanonIfc(m), parent: c.Parent(), path: c.Path(".")}
+	}); p || err != nil {
+		return sn, false
+	}
+	return sn, true
+}
+
+func (b *builder) remember(c *ucfg.Config) {
+	if sn, ok := snapConfig(c); ok {
+		b.cfgs = append(b.cfgs, sn)
+	}
+}
+
+// checkSnaps: the configs handed in are what they were before the call.
+func (k *kase) checkSnaps(snaps []cfgSnap, what string) {
+	for _, sn := range snaps {
+		now, ok := snapConfig(sn.c)
+		k.res.Ev("input_configs_compared_after_the_call", 1)
+		switch {
+		case !ok:
+			k.res.Violate("input-config-unreadable-after-call", "a *Config used inside the input can not be unpacked any more after the call (it held %s); %s", sn.canon, what)
+		case now.canon != sn.canon:
+			k.res.Violate("input-config-modified", "a *Config used inside the input held %s before the call and holds %s after it; %s", sn.canon, now.canon, what)
+		case now.parent != sn.parent || now.path != sn.path:
+			k.res.Violate("input-config-reparented", "a *Config used inside the input had path %q before the call and has path %q (parent changed: %v) after it; %s", sn.path, now.path, now.parent != sn.parent, what)
+		}
+	}
+}
+
 func (b *builder) node(s *sp, st int, top bool) interface{} {
 	switch s.kind {
+	case spRaw:
+		return s.raw
 	case spLeaf:
 		v := s.leaf.ToGo()
 		if v != nil && st == stMixed && b.r.Intn(8) == 0 {
@@ -557,6 +690,7 @@ func (b *builder) dict(s *sp, st int, top bool) interface{} {
 			}
 			return inner
 		}
+		b.remember(c)
 		if b.r.Intn(4) == 0 {
 			b.parts["Config-by-value"] = true
 			return *c
@@ -629,6 +763,11 @@ func (b *builder) structOf(s *sp, child int, ptr bool) interface{} {
 		f := fieldSpec{tag: e.key, val: b.node(e.val, child, false), concrete: b.r.Intn(2) == 0, decoy: b.decoy(e.key)}
 		if f.val == nil && b.r.Intn(2) == 0 {
 			f.typedNil = 1 + b.r.Intn(3)
+			if e.val.placeholder {
+				// a placeholder next to a value is plainly nil (a nil map or
+				// slice may pass for an empty object)
+				f.typedNil = 1
+			}
 			b.parts["typed-nil-field"] = true
 		}
 		return f
@@ -648,6 +787,7 @@ func (b *builder) structOf(s *sp, child int, ptr bool) interface{} {
 			in, rest = rest[:1], rest[1:]
 		}
 		var inl interface{}
+		inlConcrete := true
 		if b.r.Intn(2) == 0 {
 			b.parts["inline-struct"] = true
 			var ifs []fieldSpec
@@ -662,16 +802,47 @@ func (b *builder) structOf(s *sp, child int, ptr bool) interface{} {
 				m[e.key] = b.node(e.val, child, false)
 			}
 			inl = m
+			if b.r.Intn(3) == 0 {
+				// the group arrives as an existing Config (Merge: an inlined field
+				// "can be a struct, a slice, an array, a map or of type *Config")
+				var opts []ucfg.Option
+				if b.pathSep {
+					opts = append(opts, ucfg.PathSep("."))
+				}
+				opts = append(opts, b.tagOpts()...)
+				b.evals++
+				c, err := ucfg.NewFrom(m, opts...)
+				if err != nil {
+					if b.err == nil {
+						b.err = err
+					}
+				} else {
+					b.remember(c)
+					delete(b.parts, "inline-map")
+					switch b.r.Intn(3) {
+					case 0:
+						b.parts["inline-*Config"] = true
+						inl = c
+					case 1:
+						b.parts["inline-interface(*Config)"] = true
+						inl, inlConcrete = c, false
+					default:
+						b.parts["inline-Config-by-value"] = true
+						inl = *c
+					}
+					b.inlineCfg++
+				}
+			}
 		}
 		pos := b.r.Intn(len(rest) + 1)
 		for i, e := range rest {
 			if i == pos {
-				fs = append(fs, fieldSpec{tag: ",inline", val: inl, concrete: true})
+				fs = append(fs, fieldSpec{tag: ",inline", val: inl, concrete: inlConcrete})
 			}
 			fs = append(fs, mk(e))
 		}
 		if pos == len(rest) {
-			fs = append(fs, fieldSpec{tag: ",inline", val: inl, concrete: true})
+			fs = append(fs, fieldSpec{tag: ",inline", val: inl, concrete: inlConcrete})
 		}
 	} else {
 		for _, e := range s.ents {
